@@ -123,7 +123,7 @@ def entry_fields(file, entry_pos, field_delim="\xFF"):
     relfilepath_ecc = entry[second+len(field_delim):third]
     filesize_ecc = entry[third+len(field_delim):fourth]
     # Ecc stream field (aka ecc blocks)
-    ecc_field_pos = [min(entry_pos[0]+stripped+fourth+len(field_delim), entry_pos[1]) if fourth >= 0 else entry_pos[1], entry_pos[1]] # return the starting and ending position of the rest of the ecc track, which contains blocks of hash/ecc of the original file's content. If the last field delimiter is missing (entry truncated or corrupted), there is no ecc track: else (find() returning -1) the metadata fields themselves would be taken for the hash/ecc blocks of the file, and with erasures enabled a block of null bytes can then be "repaired" into garbage.
+    ecc_field_pos = [min(entry_pos[0]+stripped+fourth+len(field_delim), entry_pos[1]) if min(first, second, third, fourth) >= 0 else entry_pos[1], entry_pos[1]] # return the starting and ending position of the rest of the ecc track, which contains blocks of hash/ecc of the original file's content. If one of the four field delimiters is missing (entry truncated or corrupted), there is no ecc track (when find() returns -1 the next search starts over from the beginning of the entry and finds an earlier delimiter again, so all four results must be checked): else the metadata fields themselves would be taken for the hash/ecc blocks of the file, and with erasures enabled a block of null bytes can then be "repaired" into garbage.
 
     # Place the cursor at the beginning of the ecc_field
     file.seek(ecc_field_pos[0])
